@@ -8,6 +8,6 @@ CONSTANTS
   Ops = {"Lookup"}
   MaxDepth = 1
   MaxWs = 1000
-INVARIANTS C01_Contains C09_LookupNested
+INVARIANTS C01_CellStandsForItsPoints C01_Contains C09_LookupNested
 
 CHECK_DEADLOCK FALSE
